@@ -25,6 +25,12 @@ import (
 // and a listener closed while the server still runs refuses further upgrades
 // without wedging the server (C12).
 func c13WsHandler(w *W) {
+	if w.simFallback("ws") != "ws" {
+		// (a changed tree that does not build with package net behind the
+		// simulated network: the ws endpoint code cannot run here)
+		w.Probe("ws-not-in-simulation")
+		return
+	}
 	kind := []string{"pair", "bus", "req", "pub", "star", "xrep", "pull"}[w.Choose(simrt.SShape, 7)]
 	serverTLS := w.Choose(simrt.SShape, 2) == 0
 	lscheme := []string{"ws", "wss"}[w.Choose(simrt.SShape, 2)]
